@@ -1,5 +1,203 @@
-(* props/C36.v — property theorems for C36. *)
+(* props/C36.v — property theorems for C36: classic histograms convert to custom-bucket
+   histograms without loss (model/Nhcb.v = NHCBParser + convertnhcb.TempHistogram).
+
+   Theorems ending in _partial prove a part of the statement (what is missing is said at each);
+   theorems ending in _refuted exhibit inputs on which the faithful model — and, replayed by
+   the harness, the real code — violates a part of the property (see notes/C36.md). *)
 From Coq Require Import List ZArith Bool String.
 From Verif Require Import model.Nhcb proof.NhcbProofs.
 Import ListNotations.
+Open Scope string_scope.
+Open Scope list_scope.
 Open Scope Z_scope.
+
+(* the code as found / with the two repairs of notes/C36_fix.md *)
+Definition cfg_found (keep pst partial : bool) : cfg := mkCfg keep pst partial false false.
+Definition cfg_fixed (keep pst partial : bool) : cfg := mkCfg keep pst partial true true.
+
+(* ---- other series pass through unchanged ----------------------------------------------------
+   For every entry stream of the wrapped parser, every option setting and both endings: the
+   non-series entries (TYPE, HELP, UNIT, comments, native histograms with their labels,
+   timestamp, exemplars and start timestamp) come out unchanged, all of them, in order. *)
+Theorem C36_passthrough : forall parse_le c es eof,
+  filter nonseries_o (fst (run parse_le c es eof)) = map to_o (filter nonseries_b es).
+Proof. exact passthrough. Qed.
+
+(* ---- keep-classic ----------------------------------------------------------------------------
+   FULL STATEMENT (false of the code as found, see C36_keep_classic_exemplars_refuted):
+     keep_classic c = true -> filter visible (fst (run parse_le c es eof)) = map to_o es.
+   PROVED: with keep-classic every entry of the wrapped parser is emitted, in order, and apart
+   from the inserted converted histograms nothing else is; float series agree with the
+   unconverted stream in labels, timestamp and value ([erase] blanks exemplars and start
+   timestamp of float series only).  Missing: exemplars and start timestamp of the series. *)
+Theorem C36_keep_classic_partial : forall parse_le c es eof,
+  keep_classic c = true ->
+  map erase (filter visible (fst (run parse_le c es eof))) = map erase (map to_o es).
+Proof. exact keep_classic_order. Qed.
+
+Definition le_tab (s : string) : option num :=
+  if String.eqb s "1" then Some (Fin 8) else if String.eqb s "2" then Some (Fin 16)
+  else if String.eqb s "+Inf" then Some PInf else None.
+
+Definition ser (name : string) (ls : labels) (t : option Z) (xs : list exem) (v : Z) : bentry :=
+  BSeries (mkS (("__name__", name) :: ls) t 0 xs) (Fin v).
+
+(* TYPE h histogram / h_bucket{le="1"} 2 # exemplar 7 / h_bucket{le="+Inf"} 5 / h_count 5 *)
+Definition w_keep : list bentry :=
+  [BType "h" T_HISTOGRAM; ser "h_bucket" [("le", "1")] None [(7, Some 10)] 16;
+   ser "h_bucket" [("le", "+Inf")] None [] 40; ser "h_count" [] None [] 40].
+
+Theorem C36_keep_classic_exemplars_refuted : exists es,
+  filter visible (fst (run le_tab (cfg_found true false true) es true)) <> map to_o es.
+Proof. exists w_keep. vm_compute. intros H. discriminate H. Qed.
+
+Example keep_classic_exemplars_repaired :
+  filter visible (fst (run le_tab (cfg_fixed true false true) w_keep true)) = map to_o w_keep.
+Proof. vm_compute. reflexivity. Qed.
+
+(* ---- no custom-bucket histogram for a series that has a native histogram ------------------
+   After a native histogram entry, float series of the same metric (base name = the native
+   histogram's name, same labels apart from le) are passed through unchanged — labels,
+   timestamp, value, exemplars, start timestamp — and nothing is converted, however many
+   follow and whatever ends the input.  (The parser looks at the directly preceding native
+   histogram only; the protobuf parser yields native histogram and classic series of a metric
+   in exactly this order.) *)
+Theorem C36_no_nhcb_if_native : forall parse_le c p s hid ss,
+  p_typ p = T_HISTOGRAM ->
+  Forall (fun sv : sample * num =>
+            snd (base_name (lget (s_lset (fst sv)) NAME)) = lget (s_lset s) NAME /\
+            without (s_lset (fst sv)) [LE] = without (s_lset s) []) ss ->
+  let p1 := fst (step parse_le c p (BHist s hid)) in
+  exists p2,
+    run_from parse_le c p1 (map (fun sv => BSeries (fst sv) (snd sv)) ss) =
+      (p2, map (fun sv => OSeries (fst sv) (snd sv)) ss) /\
+    snd (process_nhcb c p2) = [].
+Proof. exact native_inhibits. Qed.
+
+Example native_nonvacuous :
+  fst (run le_tab (cfg_found false false false)
+         [BType "h" T_HISTOGRAM; BHist (mkS [("__name__", "h")] None 0 []) 5;
+          ser "h_bucket" [("le", "1")] None [] 16; ser "h_count" [] None [] 16] true) =
+  [OType "h" T_HISTOGRAM; OHist (mkS [("__name__", "h")] None 0 []) 5;
+   OSeries (mkS [("__name__", "h_bucket"); ("le", "1")] None 0 []) (Fin 16);
+   OSeries (mkS [("__name__", "h_count")] None 0 []) (Fin 16)].
+Proof. vm_compute. reflexivity. Qed.
+
+(* ---- bounds, de-cumulated counts, count, sum ---------------------------------------------------
+   FULL STATEMENT: for the buckets given in any order.  PROVED: for the buckets fed in
+   increasing order of le (the order every exposition library uses): custom bounds = the
+   finite upper bounds, bucket counts = adjacent differences of the cumulative counts plus the
+   +Inf bucket, count = _count (or the +Inf bucket, or the highest bucket), sum = _sum; for any
+   number of buckets and any values.  Missing: out-of-order insertion ([th_insert]) — covered
+   by the harness only. *)
+Theorem C36_buckets_partial : forall fin inf cnt sum h0,
+  let infb := match inf with Some i => [(PInf, i)] | None => [] end in
+  let N := expected_count fin inf cnt in
+  forallb finite_le fin = true ->
+  incr None (fin ++ infb) ->
+  match cnt with Some c => 0 <= c | None => True end ->
+  match cnt, inf with Some c, Some i => c = i | _, _ => True end ->
+  feed th_empty (fin ++ infb) = Some h0 ->
+  convert (set_sum (with_count h0 cnt) sum) =
+  Some (mkNH (negb (forallb (fun b => is_int8 (snd b)) (fin ++ [(PInf, N)]) && is_int8 N))
+             N sum (map fst fin) (decumulate 0 fin ++ [N - top fin])).
+Proof. exact convert_sorted. Qed.
+
+Example buckets_nonvacuous :
+  exists h0, feed th_empty [(Fin 8, 16); (Fin 16, 24); (PInf, 40)] = Some h0 /\
+    convert (set_sum (with_count h0 (Some 40)) (Fin 60)) =
+    Some (mkNH false 40 (Fin 60) [Fin 8; Fin 16] [16; 8; 16]).
+Proof. eexists. split; vm_compute; reflexivity. Qed.
+
+(* ---- exactly one custom-bucket histogram per classic histogram ---------------------------------
+   FULL STATEMENT: for every exposition, one converted histogram per (family, label set).
+   False in general: C36_interleaved_refuted.
+   PROVED: one classic histogram read from the start state under its TYPE line — the bucket,
+   count and sum series of one label set in any order the TempHistogram accepts, any number of
+   them — and ended by a TYPE/HELP/UNIT/comment entry or by the end of input: its series are
+   swallowed and exactly one histogram is emitted, namely the conversion of the accumulated
+   TempHistogram, with the label set minus le under the base name, the timestamp of the series
+   and the start timestamp of the first series.  Missing: series carrying exemplars (the
+   exemplar buffer, see C36_exemplars_refuted), collections ended by a float series (there the
+   timestamp is wrong, C36_timestamp_refuted), several histograms in a row. *)
+Theorem C36_one_per_histogram_partial : forall parse_le c, keep_classic c = false ->
+  forall n key m0 ms p t' nh,
+  p_state p = SStart -> p_typ p = T_HISTOGRAM -> p_bname p = n -> p_tmp p = th_empty ->
+  eb_cnt (p_ex p) = 0%nat ->
+  Forall (good_member parse_le n key) (m0 :: ms) ->
+  apply_all th_empty (m0 :: ms) = Some t' ->
+  convert t' = Some nh -> validate nh = true ->
+  let hist := ONhcb (mkS (metric_base (s_lset (m_sample m0)) n)
+                         (last (map (fun m => s_ts (m_sample m)) (m0 :: ms)) None)
+                         (if parse_st c then s_st (m_sample m0) else 0) []) nh in
+  (forall e, is_meta e = true ->
+     snd (run_from parse_le c p (map to_series (m0 :: ms) ++ [e])) = [hist; to_o e]) /\
+  (let '(p', out) := run_from parse_le c p (map to_series (m0 :: ms)) in
+   out ++ snd (process_nhcb c p') = [hist]).
+Proof. exact one_histogram. Qed.
+
+Example one_histogram_nonvacuous :
+  fst (run le_tab (cfg_found false false false)
+         [BType "h" T_HISTOGRAM; ser "h_bucket" [("a", "x"); ("le", "1")] (Some 1000) [] 16;
+          ser "h_bucket" [("a", "x"); ("le", "+Inf")] (Some 1000) [] 40;
+          ser "h_count" [("a", "x")] (Some 1000) [] 40; ser "h_sum" [("a", "x")] (Some 1000) [] 60;
+          BOther 1 "g" "help"] true) =
+  [OType "h" T_HISTOGRAM;
+   ONhcb (mkS [("__name__", "h"); ("a", "x")] (Some 1000) 0 []) (mkNH false 40 (Fin 60) [Fin 8] [16; 24]);
+   OOther 1 "g" "help"].
+Proof. vm_compute. reflexivity. Qed.
+
+(* ---- refutations (each replayed on the real code by the harness corpus) ---------------------- *)
+
+Definition grp (a : string) (t : option Z) (xs : list exem) (b1 binf : Z) : list bentry :=
+  [ser "h_bucket" [("a", a); ("le", "1")] t xs b1; ser "h_bucket" [("a", a); ("le", "+Inf")] t [] binf;
+   ser "h_count" [("a", a)] t [] binf].
+Definition nhcb_ts (o : oentry) : list (option Z) := match o with ONhcb s _ => [s_ts s] | _ => [] end.
+Definition nhcb_ex (o : oentry) : list (list exem) := match o with ONhcb s _ => [s_ex s] | _ => [] end.
+
+(* timestamp: two label sets of one family with timestamps 1000 and 2000: the first converted
+   histogram is stamped 2000 *)
+Theorem C36_timestamp_refuted :
+  flat_map nhcb_ts (fst (run le_tab (cfg_found false false false)
+                           (BType "h" T_HISTOGRAM :: grp "1" (Some 1000) [] 16 40 ++ grp "2" (Some 2000) [] 8 24) true))
+  = [Some 2000; Some 2000].
+Proof. vm_compute. reflexivity. Qed.
+
+Example timestamp_repaired :
+  flat_map nhcb_ts (fst (run le_tab (cfg_fixed false false false)
+                           (BType "h" T_HISTOGRAM :: grp "1" (Some 1000) [] 16 40 ++ grp "2" (Some 2000) [] 8 24) true))
+  = [Some 1000; Some 2000].
+Proof. vm_compute. reflexivity. Qed.
+
+(* interleaved label sets: 2 classic histograms, 4 converted ones (partial, wrong ones) *)
+Theorem C36_interleaved_refuted :
+  List.length (filter is_nhcb (fst (run le_tab (cfg_found false false false)
+     [BType "h" T_HISTOGRAM;
+      ser "h_bucket" [("a", "1"); ("le", "1")] None [] 16; ser "h_bucket" [("a", "2"); ("le", "1")] None [] 8;
+      ser "h_bucket" [("a", "1"); ("le", "+Inf")] None [] 40; ser "h_bucket" [("a", "2"); ("le", "+Inf")] None [] 24]
+     true))) = 4%nat.
+Proof. vm_compute. reflexivity. Qed.
+
+(* exemplars: (a) a histogram that fails to convert (bucket le=1 above +Inf) leaves its
+   exemplar 7 in the buffer and the next histogram reports it instead of its own exemplar 9;
+   (b) with the OpenMetrics parser an exemplar without timestamp (9) shows the timestamp of the
+   exemplar that used the buffer slot before (7 @ 10) *)
+Theorem C36_exemplars_refuted :
+  flat_map nhcb_ex (fst (run le_tab (cfg_found false false true)
+     (BType "h" T_HISTOGRAM :: grp "1" None [(7, Some 10)] 48 40 ++ grp "2" None [(9, Some 20)] 8 24) true))
+  = [[(7, Some 10)]] /\
+  flat_map nhcb_ex (fst (run le_tab (cfg_found false false true)
+     (BType "h" T_HISTOGRAM :: grp "1" None [(7, Some 10)] 16 40 ++ grp "2" None [(9, None)] 8 24) true))
+  = [[(7, Some 10)]; [(9, Some 10)]].
+Proof. split; vm_compute; reflexivity. Qed.
+
+(* a converted histogram that fails Validate (no +Inf bucket, _count below the highest
+   bucket) is not reset: the first series of the next label set is merged into it (and makes
+   it fail for good), so the next histogram is converted without its bucket le="2" *)
+Theorem C36_validate_failure_refuted :
+  filter is_nhcb (fst (run le_tab (cfg_found false false false)
+     [BType "h" T_HISTOGRAM; ser "h_bucket" [("a", "1"); ("le", "1")] None [] 32; ser "h_count" [("a", "1")] None [] 24;
+      ser "h_bucket" [("a", "2"); ("le", "2")] None [] 8; ser "h_bucket" [("a", "2"); ("le", "+Inf")] None [] 16;
+      ser "h_count" [("a", "2")] None [] 16] true)) =
+  [ONhcb (mkS [("__name__", "h"); ("a", "2")] None 0 []) (mkNH false 16 (Fin 0) [] [16])].
+Proof. vm_compute. reflexivity. Qed.
